@@ -784,6 +784,19 @@ impl<Writer: Write> Mp4Writer<Writer> {
                 "MP4 MDAT box size exceeds u32::MAX",
             ));
         }
+        // Chunk offsets are 32-bit (stco) and count from the start of the file: the last
+        // sample's offset is the largest one and must fit, too (ftyp precedes the mdat).
+        let schedule = self.compute_interleave_schedule();
+        let last_len = schedule.last().map_or(0, |(_, kind, idx)| match kind {
+            TrackKind::Video => self.video_samples[*idx].data.len(),
+            TrackKind::Audio => self.audio_samples[*idx].data.len(),
+        }) as u64;
+        if u64::from(ftyp_len) + 8 + total_payload_size - last_len > u32::MAX as u64 {
+            return Err(io::Error::new(
+                io::ErrorKind::InvalidData,
+                "MP4 chunk offset exceeds u32::MAX",
+            ));
+        }
         Self::write_counted(
             &mut self.writer,
             &mut self.bytes_written,
@@ -792,26 +805,23 @@ impl<Writer: Write> Mp4Writer<Writer> {
         Self::write_counted(&mut self.writer, &mut self.bytes_written, b"mdat")?;
 
         // Write interleaved samples and collect chunk offsets
-        let schedule = self.compute_interleave_schedule();
         let mut video_chunk_offsets = Vec::with_capacity(self.video_samples.len());
         let mut audio_chunk_offsets = Vec::with_capacity(self.audio_samples.len());
-        let mut cursor = ftyp_len + 8; // After ftyp + mdat header
+        let mut cursor = u64::from(ftyp_len) + 8; // After ftyp + mdat header
 
         for (_, kind, idx) in schedule {
             match kind {
                 TrackKind::Video => {
-                    video_chunk_offsets.push(cursor);
+                    video_chunk_offsets.push(cursor as u32);
                     let sample = &self.video_samples[idx];
-                    let sample_len = sample.data.len() as u32;
                     Self::write_counted(&mut self.writer, &mut self.bytes_written, &sample.data)?;
-                    cursor += sample_len;
+                    cursor += sample.data.len() as u64;
                 }
                 TrackKind::Audio => {
-                    audio_chunk_offsets.push(cursor);
+                    audio_chunk_offsets.push(cursor as u32);
                     let sample = &self.audio_samples[idx];
-                    let sample_len = sample.data.len() as u32;
                     Self::write_counted(&mut self.writer, &mut self.bytes_written, &sample.data)?;
-                    cursor += sample_len;
+                    cursor += sample.data.len() as u64;
                 }
             }
         }
